@@ -12,24 +12,28 @@ import vf
 import chaindb as cd
 
 META = {
-    "text": "Theorems (Coq, no axioms): restart (loadChainData, recover, sdb init, Recover) on the durable store of any state satisfying the "
-            "C05 invariant yields the same best block, the invariant and an available state root; for the connection of a main-chain block, "
-            "for EVERY prefix of its write units (state bulk, receipts tx, tip tx) the restarted node satisfies the invariant on the old or "
-            "the new tip (crash_recover_inv / crash_best_legit / state_available for main-chain connection and hence orphan-resolution runs "
-            "on the main chain); the same for main-chain orphan-resolution runs, for side-branch stores, and for EVERY prefix of the write units of "
-            "a reorganisation of any depth (rollforward state commits/receipts, marker write, deleteOldReceipts, swapTxMapping, swapChainMapping "
-            "bulk, marker delete): before the marker the node restarts on the old tip, after it the marker-driven recovery (RecoverChainMapping + "
-            "recoverReorg) ends on the new tip holding exactly the crash-free final store; crash_replay_converges proved for main-chain connection, "
-            "refuted (known finding) for reorg crashes before the marker.  _partial_flush: every prefix of the operations inside the tx-delete bulk and inside "
-            "the swapChainMapping bulk is proved recoverable (general theorem restart_rec over the predicate Rec); crash DURING recovery: proved idempotent for "
-            "atomic units; a partial flush inside the RecoverChainMapping bulk is refuted in Coq and reproduced on the real code (known finding).  On every run the "
-            "real code is exercised for every journal prefix of every scenario (real Init+Recover, invariant, legitimacy of best, marker gone, replay "
-            "convergence against a crash-free node fed the blocks twice), also for cuts INSIDE bulks and for a second crash during the journaled recovery, "
-            "and its sequence of write units is compared with the model's journal.",
-    "note": "Trusted: Coq kernel; journaling store (harness/engines/chaindb/zz_verif_journal_test.go) as the model of db.DB atomicity "
-            "(committed transaction / flushed bulk / single set are atomic); badger durability below db.DB; consensus stub (LIB 0 at restart, "
-            "as the lazily loaded DPoS status).  Known finding: a crash during a reorganisation before the marker is written restarts on the "
-            "old tip with the longer branch stored; re-delivering the same blocks is answered 'already connected' and never reorganises.",
+    "text": "15 Coq theorems, no axioms. FULL: restart (loadChainData, RecoverChainMapping, sdb init, Recover) on the store of any state with "
+            "the C05 invariant gives the same best, Inv, an available state root; for EVERY prefix of the write units of a main-chain "
+            "connection, of main-chain orphan runs, of side stores and of a reorganisation of any depth (rollforward commits, marker, "
+            "deleteOldReceipts, swapTxMapping, swapChainMapping bulk, marker delete) the restarted node satisfies Inv on the old tip (before "
+            "the marker) or on the new tip holding exactly the crash-free final store (after it); every prefix of the OPERATIONS inside the "
+            "tx-delete and swapChainMapping bulks (general theorem over predicate Rec); a second crash during the recovery (idempotent); "
+            "replay convergence for a connection; unit sequences exact; recovery_before_reload: the redone reorg only moves the state root, "
+            "the final reloadSystemParams re-establishes 'parameters in memory = state', after which the next valid block is accepted. "
+            "REFUTED = open findings: replay after a crash before the marker does not reorganise "
+            "(C06:crash-before-reorg-marker-replay-does-not-reorganise); a partial flush inside the RecoverChainMapping bulk is unloadable "
+            "(C06:partial-flush-of-RecoverChainMapping-bulk-unloadable). Tie to /repo on every run: journaling KV under both stores of the "
+            "real ChainService; for every journal prefix, cuts inside bulks and a second crash in a journaled recovery: real "
+            "NewChainService+Recover, P1-P6, P11 parameters, P12 next child accepted, best legit, marker gone, replay vs crash-free node; the "
+            "code's write-unit sequence is diffed with the model journal.",
+    "note": "Trusted: Coq kernel + vm_compute (no axioms); journaling store (zz_verif_journal_test.go, registered as a db implementation "
+            "through an overlay file) as the model of db.DB: a committed transaction, a flushed bulk and a single Set are atomic and durable "
+            "in issue order except where the engine cuts a bulk explicitly; badger below db.DB; engine, factory node and lib/chaindb.py; "
+            "consensus stub (LIB 0 after restart). Modelled, not verified: apply/spent abstraction of execution; the state-commit bulk as one "
+            "operation (its inner cuts are exercised on the real code only); system parameters as 'those of root pmem'. Hypotheses: "
+            "collision-free block ids; every scenario block changes the state root (the test genesis root has no marker). Third open finding "
+            "C06:replay-differs-after-failed-reorg-of-orphan-chain is a consequence of C07's orphan-tail finding (the replay reaches a better "
+            "state). Not proved: convergence for side-branch runs, double crash with cuts inside bulks (engine only).",
     "technique": "Coq proof (restart, main-chain crash points) + exhaustive crash-point replay of the real code over a journaling KV store",
 }
 
